@@ -209,6 +209,11 @@ func TestCases(t *testing.T) {
 			for _, ps := range used {
 				alts := c.Pcts[ps]
 				neg := strings.HasPrefix(ps, "-")
+				if ps == "0" { // p = 0 is neither "lowest" nor "highest": whichever boundary name is used, it is the single value (n = 1)
+					if _, lower := got["lower_0"]; lower {
+						neg = true
+					}
+				}
 				names := map[string]bool{"count_" + ps: !mask.CountPct, "mean_" + ps: !mask.MeanPct, "sum_" + ps: !mask.SumPct,
 					"sum_squares_" + ps: !mask.SumSquaresPct, "upper_" + ps: !neg && !mask.UpperPct, "lower_" + ps: neg && !mask.LowerPct}
 				okAny, why := false, ""
